@@ -38,8 +38,9 @@ def describe(tier):
 
 def workloads(tier):
     w = [('PiBas-small', 'CJJ14.PiBas', 'small'), ('PiBas-multichunk', 'CJJ14.PiBas', 'big')]
+    w += [('Pi2Lev-small', 'CJJ14.Pi2Lev', 'small'), ('DP17-small', 'DP17.Pi', 'small')]
     if tier != 'quick':
-        w += [('Pi2Lev-small', 'CJJ14.Pi2Lev', 'small'), ('DP17-small', 'DP17.Pi', 'small')]
+        w += [('CT14-small', 'CT14.Pi', 'small'), ('SSE1-small', 'CGKO06.SSE1', 'small'), ('ANSS16-multichunk', 'ANSS16.Scheme3', 'big')]
     return w
 
 
